@@ -8,7 +8,7 @@ FIXED_PREFIX = 1  # the `type …` line that opens a case selects the payload ty
 HARNESSES = [dict(name="c09", src="harness/c09.cpp", repo_srcs=["rkcommon/utility/demangle.cpp"])]
 
 # payload type -> (sizeof, log2 alignof) as the harness asserts them (x86-64 SysV, libstdc++)
-TYPES = {"int": (4, 2), "flt": (4, 2), "dbl": (8, 3), "str": (32, 3), "vec": (24, 3), "big": (64, 5), "trk": (8, 3), "tdp": (8, 2)}
+TYPES = {"int": (4, 2), "flt": (4, 2), "dbl": (8, 3), "str": (32, 3), "vec": (24, 3), "big": (64, 5), "trk": (8, 3), "tdp": (16, 3)}
 ENV_TYPES = ("int", "flt", "str")
 ATAGS = ["int", "float", "string", "long", "noeq", "trk", "key"]
 
